@@ -444,8 +444,12 @@ func run(t *testing.T, tape *simrt.Tape) *hx.Outcome {
 			bad = fmt.Sprintf("%q: tar header owner %d(%q):%d(%q), TOC says %d(%q):%d(%q)", n.Path, rn.UID, rn.Uname, rn.GID, rn.Gname, e.UID, e.Uname, e.GID, e.Gname)
 			return
 		}
-		if e.ModTime().Unix() != rn.MTime {
-			bad = fmt.Sprintf("%q: tar header mtime %d, TOC says %d", n.Path, rn.MTime, e.ModTime().Unix())
+		tm := int64(0) // docs/estargz.md: an empty modtime means zero
+		if !e.ModTime().IsZero() {
+			tm = e.ModTime().Unix()
+		}
+		if tm != rn.MTime {
+			bad = fmt.Sprintf("%q: tar header mtime %d, TOC says %d", n.Path, rn.MTime, tm)
 			return
 		}
 		if int64(e.Stat().Mode().Perm()) != rn.Mode&0777 {
